@@ -137,7 +137,7 @@ def check(ctx):
             for b in body.blocks:
                 if b.cleanup or b.term.kind != "switch" or body.is_noise(b.term):
                     continue
-                e, ls = an.switch_info(b.idx)
+                e, ls = an.switch_info(b.idx, opt=True)
                 if self_field(e) == "auth_secret":
                     edges += [(b.idx, tb) for tb, l in ls.items() if "Some" in l]
             okk, p = g.must_pass(bb, cut_edges=edges)
@@ -150,7 +150,7 @@ def check(ctx):
                 for b in body.blocks:
                     if b.cleanup or b.term.kind != "switch" or body.is_noise(b.term):
                         continue
-                    ee, ls = an.switch_info(b.idx)
+                    ee, ls = an.switch_info(b.idx, opt=True)
                     if self_field(ee) == "auth_secret" and always_before(g, sbb or 0, b.idx):
                         none_edges += [(b.idx, tb) for tb, l in ls.items() if "None" in l]
                 okk, p = L.gf.must_pass(tbb, cut_nodes=[bb], cut_edges=none_edges, goal_val=lambda v: v[0] is not False)
@@ -221,9 +221,9 @@ def check(ctx):
         for b in body.blocks:
             if b.cleanup or b.term.kind != "switch" or body.is_noise(b.term):
                 continue
-            e, ls = an.switch_info(b.idx)
-            if e[0] == "call" and flow.short(e[1]).endswith(("Option::is_none", "Option::is_some")):
-                x = flow.strip(e[3][0])
+            e, ls = an.switch_info(b.idx, opt=True)
+            if any("Some" in l for l in ls.values()) and any("None" in l for l in ls.values()):
+                x = flow.strip(e)
                 if x[0] == "try":
                     c = flow.strip(x[1])
                     if c[0] == "call" and flow.short(c[1]).endswith("CookieResponsePacket::decode") \
@@ -237,9 +237,8 @@ def check(ctx):
                         if cc is not None and sreq and always_before(g, sreq[0][0], cc[4]) and \
                                 (not areq or always_before(g, cc[4], areq[0][0])):
                             dec_ok = True
-                        none_label = "true" if flow.short(e[1]).endswith("is_none") else "false"
-                        edges_t += [(b.idx, tb) for tb, l in ls.items() if none_label in l]
-                        edges_f += [(b.idx, tb) for tb, l in ls.items() if none_label not in l]
+                        edges_t += [(b.idx, tb) for tb, l in ls.items() if "None" in l]
+                        edges_f += [(b.idx, tb) for tb, l in ls.items() if "None" not in l]
         okk, p = g.must_pass(bb, cut_edges=edges_t)
         ctx.check(okk and bool(edges_t) and dec_ok, RS, "C10/session-cookie/only-when-absent", site(body, bb),
                   reason="session cookie is stored although the client presented one (or the test is not on the session response)",
